@@ -81,5 +81,38 @@ State ==
      tserve |-> [i \in 1..Len(Tl) |-> ServeT(Tl[i].t)]]
 
 Emit == EMIT => PrintT(<<"S", ToJson(State)>>)
+
+\* ---- static (vod) mode: C06 ---------------------------------------------------------
+\* additional layouts used in static mode only (tracks much shorter / longer than the reference)
+ExtraLayouts == [
+  T2 |-> [rep |-> [ts |-> 1,  durs |-> <<10, 5>>,              sn |-> 1, segdur |-> 7,  st |-> 0], ref |-> RefV],
+  A3 |-> [rep |-> [ts |-> 10, durs |-> <<40, 40, 40, 40, 38>>, sn |-> 3, segdur |-> 39, st |-> 0], ref |-> RefV],
+  R2 |-> [rep |-> [ts |-> 2,  durs |-> <<9, 7, 9, 7, 9>>,      sn |-> 1, segdur |-> 8,  st |-> 0], ref |-> RefR] ]
+StaticLayouts == [n \in (DOMAIN Layouts) \cup (DOMAIN ExtraLayouts) |->
+                    IF n \in DOMAIN Layouts THEN Layouts[n] ELSE ExtraLayouts[n]]
+
+InitStatic == lay \in DOMAIN StaticLayouts /\ e = 1 /\ o = [depth |-> 5, leeway |-> 0]
+SpecStatic == InitStatic /\ [][Next]_vars
+
+SRep == StaticLayouts[lay].rep
+SRef == StaticLayouts[lay].ref
+STl  == ImplTimelineVod(SRep, SRef)
+SNums == SRep.sn .. (SRep.sn + NumSegs(SRep) - 1)
+
+\* a track shorter than its reference by a whole segment or more would still be cut short by
+\* the reference duration; such layouts are outside the fixtures and outside this instance
+C06_TimelineIsStored == C06_TimelineIsStoredTrack(SRep, STl)
+C06_NumbersServed ==
+    /\ \A n \in SNums : LET r == ImplServeVod(SRep, "number", n) IN
+          r.status = 200 /\ r.mod = n - SRep.sn + 1 /\ r.seq = n /\ r.tfdt = StoredTfdt(SRep, r.mod)
+    /\ ImplServeVod(SRep, "number", SRep.sn + NumSegs(SRep)).status = 404
+    /\ ImplServeVod(SRep, "number", SRep.sn - 1).status = 404
+C06_TimesServed ==
+    /\ \A i \in 1..Len(STl) : LET r == ImplServeVod(SRep, "time", STl[i].t) IN
+          r.status = 200 /\ r.mod = i /\ r.tfdt = STl[i].t /\ r.dur = STl[i].d
+    /\ Len(STl) > 0 => ImplServeVod(SRep, "time", STl[Len(STl)].t + STl[Len(STl)].d).status = 404
+
+StaticState == [lay |-> lay, layout |-> StaticLayouts[lay], timeline |-> STl, nums |-> SetToSeq(SNums)]
+EmitStatic == EMIT => PrintT(<<"T", ToJson(StaticState)>>)
 ASSUME EMIT => PrintT(<<"L", ToJson([layouts |-> Layouts, q |-> Q])>>)
 =============================================================================
